@@ -4,6 +4,9 @@
 \* + 2 inverted), the empty stable key with the empty byte value and uint64
 \* 2^64-1, 6 StoreLog choices, 1 batch with 2 more shapes, 1 StoreLogProto shape,
 \* both encodings, Close/Kill/Open/ConvertToProto in every state.
+\* Above = {}: no index rank sorts after the "stablestore-" keys in this graph; checks/c09.py
+\* derives the variants Above = {1,3,5}, {5}, {3,5} of the tiny config at run time (thorough tier)
+\* and executes every tour/behaviour under concretisations below, above and across that boundary.
 SPECIFICATION Spec
 CONSTANTS
     Idx <- SmallIdx
@@ -16,6 +19,7 @@ CONSTANTS
     ProtoChoices <- SmallProtos
     RangeChoices <- SmallRanges
     EncChoices <- Encs
+    Above = {}
     KeepHist = FALSE
     MaxOps = 0
 VIEW SV
